@@ -117,6 +117,10 @@ constant-foldable stateful filter (the C++ `to_template_unique_name` is not mark
 compiled at render time is then folded from the freshly reset state. -/
 theorem C10_templates_compiled_lazily_in_source : TplFlows.templatesCompiledLazily = true := by decide
 
+/-- No class attribute or module global bound to a dict / list / set is written at run time anywhere in the package
+(AST scan of the whole package; a listed exception would have to be modelled as a state machine here). -/
+theorem C10_no_process_wide_containers_in_source : TplFlows.noUnlistedSharedContainers = true := by decide
+
 /-- `cached_property.__get__` keeps its value in `instance.__dict__` (read off the source by the translator). -/
 theorem C10_cached_property_per_instance_in_source : TplFlows.cachedPropertyPerInstance = true := by decide
 
